@@ -346,7 +346,8 @@ def run_classes(shard, rec, NB, TB):
         both(rec, "c.PauliPolynomial.reduce", pc, lambda: (Ha @ Ka).reduce(1e-4), lambda: (Hb @ Kb).reduce(1e-4), NB, TB, canon=poly_canon)
         # explicit tolerances with coefficients exactly on the threshold (round values, exact cancellations)
         tg_ = np.concatenate([gs, gs[:2]])
-        tp_ = np.concatenate([ps, ps[:2]])
+        tp_ = np.zeros(len(gs) + 2, dtype=np.int64)     # phase +1 everywhere: the port evaluates i^p in float32 (i^1 = -4e-8 + 1j), which would
+                                                        # move a coefficient off an exact tie by one rounding step; signs live in the coefficients here
         tc_ = np.concatenate([rng.choice(np.array([0.5, -0.5, 1.0, -1.0, 0.25, 2.0]), size=len(gs)).astype(complex), [0.5, -1.0]])
         tc_[0], tc_[1] = -0.5, 0.5       # term 0 cancels exactly with the appended copy; term 1 sums to -0.5
         for tol_ in (0, 0.5, 1.0, 0.25):
